@@ -298,3 +298,6 @@ TEXTS['C13']['text'] = TEXTS['C13']['text'] + (" For runs of the bucket model it
     "asks again for the same amount no earlier than it was told) the bytes granted to reads that waited are at most max x T (waited_bytes_le: an "
     "invariant carrying the virtual finish times of a FIFO server as ghost state) and all bytes at most (1/alpha + 1) x max x T (total_bytes_le) "
     "— the guarantee the code does give in place of the statement's single 1.25 bound.")
+
+TEXTS['C04']['text'] = TEXTS['C04']['text'] + (" failed_submission_is_announced: the failure path of SubmissionTask._main (record, wait for the submitted futures, "
+    "announce; the waiting loop's except clauses and the order are generated from the source) reaches announce_done whatever exceptions the awaited futures carry.")
